@@ -236,8 +236,18 @@ def from_ir(t):
         c = _import_obj(t[1])
         se = iter([from_ir(a) for a in t[2]])
         at = iter([attr_py(a) for a in t[3]])
-        vals = [next(se) if f.metadata.get("sympify") else next(at) for f in dataclasses.fields(c)]
-        return c(*vals)
+        # SymPy fields positionally, non-SymPy fields by keyword (the way users call the constructors), so
+        # that the all-positional path of func(*args) / unpickling is a DIFFERENT path from construction
+        pos, kw, seen_attr = [], {}, False
+        for f in dataclasses.fields(c):
+            if f.metadata.get("sympify") and not seen_attr:
+                pos.append(next(se))
+            elif f.metadata.get("sympify"):
+                kw[f.name] = next(se)
+            else:
+                seen_attr = True
+                kw[f.name] = next(at)
+        return c(*pos, **kw)
     raise IRError(f"bad IR {t!r}")
 
 
@@ -247,19 +257,38 @@ def norm(e):
     return from_ir(to_ir(e))
 
 
-def same(a, b) -> bool:
-    return canon_dummies(norm(a)) == canon_dummies(norm(b))
+class Undecided(Exception):
+    pass
+
+
+def same(a, b, limit=6) -> bool:
+    """Equality modulo SymPy's own normalisation: rebuild both sides bottom-up; if they still differ
+    (sign extraction / number distribution depend on construction history) compare after sp.expand."""
+    import signal
+
+    a1, b1 = canon_dummies(norm(a)), canon_dummies(norm(b))
+    if a1 == b1:
+        return True
+
+    def _al(*_):
+        raise Undecided
+
+    signal.signal(signal.SIGALRM, _al)
+    signal.alarm(limit)
+    try:
+        return sp.expand(a1) == sp.expand(b1)
+    finally:
+        signal.alarm(0)
 
 
 def canon_dummies(e):
-    """Rename Dummy symbols by order of first appearance (evaluate() creates fresh ones on every call)."""
-    ds = []
-    for n in sp.preorder_traversal(e):
-        if isinstance(n, sp.Dummy) and n not in ds:
-            ds.append(n)
+    """evaluate() creates a fresh Dummy (bound summation index) on every call, so two unfoldings of
+    the same expression are never `==`.  Compare modulo the identity of Dummies: every Dummy is renamed
+    to a plain symbol carrying its name and assumptions (the model's templates use one fixed symbol)."""
+    ds = {n for n in sp.preorder_traversal(e) if isinstance(n, sp.Dummy)}
     if not ds:
         return e
-    return e.xreplace({d: sp.Symbol(f"_Dummy{i}_{d.name}", **d.assumptions0) for i, d in enumerate(ds)})
+    return e.xreplace({d: sp.Symbol(f"_Dummy_{d.name}", **d.assumptions0) for d in ds})
 
 
 def ir_size(t):
@@ -270,7 +299,7 @@ def ir_size(t):
 
 # ---------------------------------------------------------------- IR -> Gallina
 def cstr(s: str) -> str:
-    if any(ord(ch) > 126 or ord(ch) < 32 for ch in s):
+    if any(ord(ch) > 126 or ord(ch) < 32 or ch == "@" for ch in s):
         raise IRError(f"non-ascii string {s!r}")
     return '"' + s.replace('"', '""') + '"'
 
